@@ -65,6 +65,19 @@ def gen_tree(rng, maxdepth=5, nmax=10, name_style=None, links=True, block=32768,
                 used.discard(p)
                 continue
             entries.append({"path": p, "kind": "link", "target": rng.pick(cands)})
+    if deref_safe:
+        # with dereference a link to a directory is followed: keep only such links whose referent subtree holds no link
+        # at all, so that the walk is finite and acyclic (mutual cycles A/x -> B, B/y -> A would never end)
+        linkpaths = [e["path"] for e in entries if e["kind"] == "link"]
+        kinds = {e["path"]: e["kind"] for e in entries}
+        keep = []
+        for e in entries:
+            if e["kind"] == "link":
+                tgt = posixpath.normpath(posixpath.join(posixpath.dirname(e["path"]), e["target"]))
+                if kinds.get(tgt) == "dir" and any(lp.startswith(tgt + "/") for lp in linkpaths):
+                    continue
+            keep.append(e)
+        entries = keep
     return entries
 
 
